@@ -88,8 +88,12 @@ def _worker_verify(job):
 def _worker_native(job):
     modname, tier, seed = job
     import importlib
-    mod = importlib.import_module(modname)
-    return mod.run(tier=tier, seed=seed)
+    import contextlib
+    import io
+    buf = io.StringIO()
+    with contextlib.redirect_stdout(buf):       # the repository prints progress lines; they are not part of the verdict
+        mod = importlib.import_module(modname)
+        return mod.run(tier=tier, seed=seed)
 
 
 def slug(s):
@@ -187,9 +191,10 @@ def main(argv=None):
             # ordering hints for the discharge ladder (which late stage discharged an obligation): speed only
             hp = os.path.join(HOME, 'baseline', 'hints.json')
             hints = json.load(open(hp)) if os.path.exists(hp) else {}
-            hints[prop] = {n: sorted({o['backend'] for o in obs if (o['backend'] or '').startswith('z3/instantiated')})
-                           for n, obs in obligations.items()
-                           if any((o['backend'] or '').startswith('z3/instantiated') for o in obs)}
+            def late(b):
+                return (b or '').startswith('z3/instantiated') or 'cvc5' in (b or '')
+            hints[prop] = {n: sorted({o['backend'] for o in obs if late(o['backend'])})
+                           for n, obs in obligations.items() if any(late(o['backend']) for o in obs)}
             json.dump(hints, open(hp, 'w'), indent=1, sort_keys=True)
             print("baseline for %s: %d obligation names" % (prop, len(names)))
     expected = baseline.get(prop)
